@@ -17,13 +17,15 @@ pub struct Io {
     pub quiet: bool,
     /// writer: report exhaustion as Ok(0) (like `&mut [u8]`) instead of an error
     pub zero_on_full: bool,
+    /// writer: flush() reports an error
+    pub flush_fail: bool,
 }
 impl Io {
     pub fn reader(data: &[u8], sched: Vec<usize>, fail_at: Option<usize>) -> Io {
-        Io { data: data.to_vec(), pos: 0, sched, calls: 0, fail_at, log: vec![], flushed: 0, quiet: false, zero_on_full: false }
+        Io { data: data.to_vec(), pos: 0, sched, calls: 0, fail_at, log: vec![], flushed: 0, quiet: false, zero_on_full: false, flush_fail: false }
     }
     pub fn writer(sched: Vec<usize>, fail_at: Option<usize>) -> Io {
-        Io { data: vec![], pos: 0, sched, calls: 0, fail_at, log: vec![], flushed: 0, quiet: false, zero_on_full: false }
+        Io { data: vec![], pos: 0, sched, calls: 0, fail_at, log: vec![], flushed: 0, quiet: false, zero_on_full: false, flush_fail: false }
     }
     fn note(&mut self, j: J) {
         if !self.quiet {
@@ -83,6 +85,9 @@ impl Io {
     pub fn do_flush(&mut self) -> Result<(), ()> {
         self.flushed += 1;
         self.note(json!(["f"]));
+        if self.flush_fail {
+            return Err(());
+        }
         Ok(())
     }
 }
